@@ -1,9 +1,7 @@
 use std::sync::Arc;
 
-use vengine::mon::Mon;
 use vengine::profiles::spec_for;
 use vengine::runner::*;
-use vengine::world::World;
 
 fn arg_val(args: &[String], name: &str) -> Option<String> {
     args.iter().position(|a| a == name).and_then(|i| args.get(i + 1).cloned())
@@ -128,6 +126,9 @@ fn sim_check(id: &str, tier: &str, seed: u64, args: &[String]) -> i32 {
     if let Some(o) = arg_val(args, "--add-options").and_then(|s| s.parse::<u32>().ok()) {
         spec.options |= o;
     }
+    if let Some(o) = arg_val(args, "--del-options").and_then(|s| s.parse::<u32>().ok()) {
+        spec.options &= !o;
+    }
     let known = known_for(id);
     let eval = Arc::new(default_eval(&spec));
     let is_c20 = spec.monitors & vengine::mon::P20 != 0;
@@ -139,7 +140,7 @@ fn sim_check(id: &str, tier: &str, seed: u64, args: &[String]) -> i32 {
                 return 2;
             }
         };
-        let out = World::run(&case, Mon::new(spec.monitors), spec.options, true);
+        let out = eval(&case, true);
         if arg_val(args, "--trace").is_some() || args.iter().any(|a| a == "-v") {
             for l in out.trace.as_ref().unwrap() {
                 println!("{}", l);
@@ -175,7 +176,7 @@ fn sim_check(id: &str, tier: &str, seed: u64, args: &[String]) -> i32 {
             let ps = p.to_string_lossy().to_string();
             if let Ok((case, _)) = load_replay(&ps) {
                 regressions_replayed += 1;
-                let out = World::run(&case, Mon::new(spec.monitors), spec.options, false);
+                let out = eval(&case, false);
                 if let Verdict::Fail(v, sig) = judge(id, is_c20, &out, &known) {
                     println!("regression {}: {}/{}: {}", ps, v.property, v.monitor, v.detail);
                     println!("signature: {}", sig);
@@ -223,8 +224,9 @@ fn sim_check(id: &str, tier: &str, seed: u64, args: &[String]) -> i32 {
         for k in &known {
             if let Some(rp) = &k.replay {
                 if let Ok((case, _)) = load_replay(rp) {
-                    let opts = spec_options | spec.repro_options.unwrap_or(0);
-                    let o = World::run(&case, Mon::new(spec.monitors), opts, false);
+                    let mut spec3 = spec_for(id).unwrap();
+                    spec3.options = spec_options | spec.repro_options.unwrap_or(0);
+                    let o = default_eval(&spec3)(&case, false);
                     match judge(id, is_c20, &o, &known) {
                         Verdict::Known(sig) if sig == k.signature => {
                             *known_seen.entry(sig).or_insert(0) += 1;
